@@ -20,6 +20,25 @@ Theorem C04_fold : forall ev ts v, ast_event ev = true -> tracers_plain ts -> pl
 Proof. exact fold_refines. Qed.
 Print Assumptions C04_fold.
 
+(* Since ed948fd.. / the unified return rule (a handler that returns nothing, Skip, or raises keeps the value left so far for EVERY
+   event; for 'call' the fold starts from the tracer's own trace function): the composition rule also holds for the system events,
+   which take one tracer's own fold (tracer._emit_event; they do not go through the stack loop).  Before the repair a handler
+   returning nothing reset the running value of a 'call' / 'exception' event to the tracer's trace function: the second handler of
+   an exception was told a function instead of the (type, value, traceback), and an earlier handler's Null or replacement trace
+   function was discarded. *)
+Theorem C04_tracer_fold_any_event : forall ev ti t v th log,
+  handlers_plain (t_handlers t) -> t_propagate t = false -> t_hard_disabled t = false -> plain v = true ->
+  exists th', tracer_emit ev false ti t v th log =
+    (match spec_tracer ti 0 (t_handlers t) v log with (w, true, _) => TVal (RTuple2 RSkipAll w) | (w, false, _) => TVal w end,
+     th', snd (spec_tracer ti 0 (t_handlers t) v log)).
+Proof. exact tracer_fold_any. Qed.
+Print Assumptions C04_tracer_fold_any_event.
+Theorem C04_stack_fold_any_event : forall ev ts ti v log, tracers_plain ts -> plain v = true ->
+  exists ths, tracer_loop ev true false false false ti ts v log =
+              (TVal (fst (spec_all ti ts v log)), ths, snd (spec_all ti ts v log)) /\ plain (fst (spec_all ti ts v log)) = true.
+Proof. intros ev. exact (loop_refines_any ev). Qed.
+Print Assumptions C04_stack_fold_any_event.
+
 (* before_stmt: the program runs the replacement finally left, skips on Pass, runs the original statement when the
    value is falsy - whichever stacked tracer's exec_saved_thunk is installed in builtins *)
 Theorem C04_before_stmt : forall ts, tracers_plain ts ->
